@@ -180,8 +180,9 @@ def run(ctx):
         # on the false edge r is released: every path that takes the false edge resets r
         released = lambda e: any(n.get("k") == "call" and short(n.get("name") or "") in ("reset", "release") and fmt(n.get("this")) == "r" and not [a for a in n.get("args", []) if a.get("k") != "defarg"] for n in elem_calls(e))
         for (b, i, e) in wl:
+            _, neg = cfg.strip_not(f.term(b).get("cond")) if f.term(b).get("cond") is not None else (None, False)
             for to, lab in f.succs(b):
-                if lab == "false":
+                if lab == ("true" if neg else "false"):
                     p = cfg.reaches_without(f, (to, -1), cfg.EXIT, released)
                     ctx.check(p is None, "R10.4", f, "record-released-when-rejected", "when will_log returns false the record is kept: the destructor would format and emit it", f)
     for f in dtor:
